@@ -8,3 +8,4 @@ use std::path::{Path, PathBuf};
 #[path = "/repo/src/fixtures/types.rs"]
 pub mod types;
 use types::*;
+
